@@ -298,6 +298,16 @@ func spaces(thorough bool) []Params {
 		}
 		out = append(out, p)
 	}
+	// AXIS families added by the axis audit (AXES.md): the backend's relevant-transaction feed
+	// (ProcessRelevantSpendTx, incl. details above the notifier's height) and lazy readers
+	// (clients that do not read between events: the notifier's take-back selects). The quick
+	// variants are small (~41 k states together) and run FIRST (cheapest-first: a deadline on a
+	// loaded machine must cut depth, not these branches); the thorough variants follow the pair family.
+	if !thorough {
+		for _, q := range axisSpaces(thorough) {
+			add(q)
+		}
+	}
 	// two clients of the same txid request, different depths
 	add(Params{Name: "conf-txid-n1+n2", Clients: []ClientSpec{conf("txid", 1), conf("txid", 2)}, Contents: confOnly, Hints: allHints, Limit: 4, Depth: d(8, 11), Restarts: 1})
 	// txid + script-only requests for the same transaction (two notification sets)
@@ -333,6 +343,11 @@ func spaces(thorough bool) []Params {
 	for _, q := range pairSpaces(thorough) {
 		add(q)
 	}
+	if thorough {
+		for _, q := range axisSpaces(thorough) {
+			add(q)
+		}
+	}
 	// shortest reorg limit: pruning (Done) and final blocks reached within few ops
 	add(Params{Name: "conf-txid-n1+n2-limit2", Clients: []ClientSpec{conf("txid", 1), conf("txid", 2)}, Contents: confOnly, Hints: allHints, Limit: 2, Depth: d(7, 10), Restarts: 1})
 	// two spend clients of the same outpoint, conflicting spenders
@@ -349,6 +364,27 @@ func spaces(thorough bool) []Params {
 }
 
 func obj2(c ClientSpec) ClientSpec { c.Obj = 1; return c }
+
+// axisSpaces: see AXES.md / NOTES.md ("relevant" and "lazy" families).
+func axisSpaces(thorough bool) []Params {
+	h2 := []string{"old", "tip1"}
+	if !thorough {
+		return []Params{
+			{Name: "relevant-spend-op+sscript", Clients: []ClientSpec{{Kind: "op"}, {Kind: "sscript"}}, Contents: spendOnly, Hints: h2, Limit: 4, Depth: 6, Relevant: true},
+			{Name: "lazy-conf-txid-n1+n2", Clients: []ClientSpec{conf("txid", 1), conf("txid", 2)}, Contents: confOnly, Hints: h2, Limit: 4, Depth: 8, Lazy: true},
+			{Name: "lazy-spend-op", Clients: []ClientSpec{{Kind: "op"}}, Contents: spendOnly, Hints: h2, Limit: 4, Depth: 9, Lazy: true},
+		}
+	}
+	return []Params{
+		{Name: "relevant-spend-op+sscript", Clients: []ClientSpec{{Kind: "op"}, {Kind: "sscript"}}, Contents: spendOnly, Hints: allHints, Limit: 4, Depth: 7, Restarts: 1, Relevant: true},
+		{Name: "relevant-spend-op+op-limit2", Clients: []ClientSpec{{Kind: "op"}, {Kind: "op"}}, Contents: spendOnly, Hints: h2, Limit: 2, Depth: 8, Relevant: true},
+		{Name: "relevant-mixed-txid-n2+op", Clients: []ClientSpec{conf("txid", 2), {Kind: "op"}}, Contents: mixed, Hints: h2, Limit: 4, Depth: 7, Relevant: true},
+		{Name: "lazy-conf-txid-n1+n2", Clients: []ClientSpec{conf("txid", 1), conf("txid", 2)}, Contents: confOnly, Hints: h2, Limit: 4, Depth: 10, Lazy: true},
+		{Name: "lazy-conf-script-n3-limit3", Clients: []ClientSpec{conf("script", 3)}, Contents: confOnly, Hints: h2, Limit: 3, Depth: 10, Lazy: true},
+		{Name: "lazy-spend-op+sscript", Clients: []ClientSpec{{Kind: "op"}, {Kind: "sscript"}}, Contents: spendOnly, Hints: h2, Limit: 4, Depth: 8, Lazy: true},
+		{Name: "lazy-relevant-spend-op", Clients: []ClientSpec{{Kind: "op"}}, Contents: spendOnly, Hints: h2, Limit: 4, Depth: 9, Lazy: true, Relevant: true},
+	}
+}
 
 var (
 	pairConf  = []string{"e", "T", "U", "TU"}
@@ -436,7 +472,7 @@ func TestC14(t *testing.T) {
 		replay(t, run, rp)
 		return
 	}
-	budget := 200 * time.Second
+	budget := 230 * time.Second
 	if run.Thorough() {
 		budget = 27 * time.Minute
 	}
@@ -608,7 +644,11 @@ func TestC14(t *testing.T) {
 			"notifier_calls_under_quiescence_watchdog": st.NotifierCalls.Load(), "hint_commits": st.HintCommits.Load(),
 			"suffix_probe_states": st.ProbeStates.Load(), "suffix_probe_states_skipped_no_persisted_hint": st.ProbeSkipped.Load(),
 			"suffix_probes_executed_stop_then_connect": st.ProbeSuffixes.Load(),
-			"pair_ops_ending_with_both_objects_events_in_one_block":             st.PairSameEventHeight.Load(),
+			"relevant_tx_reports_of_a_spend_on_chain":  st.RelevantKnown.Load(), "relevant_tx_reports_ahead_of_the_block": st.RelevantAhead.Load(),
+			"relevant_tx_reports_that_delivered_a_Spend": st.RelevantDelivered.Load(),
+			"lazy_reads": st.LazyReads.Load(), "lazy_states_with_unread_Confirmed_or_Spend_judged": st.LazyUnreadConfirmed.Load(), "lazy_states_with_unread_reorg_notice": st.LazyUnreadNeg.Load(),
+			"matcher_differential_scans": st.MatcherScans.Load(), "matcher_txs_tested": st.MatcherTxsTested.Load(), "matcher_matches": st.MatcherMatches.Load(),
+			"pair_ops_ending_with_both_objects_events_in_one_block":            st.PairSameEventHeight.Load(),
 			"pair_ops_ending_with_both_objects_queued_for_one_maturity_height": st.PairSameMaturityPending.Load(),
 		},
 		"stale_scan_candidates": map[string]any{"count": st.StaleCandidates.Load(), "examples": candidates,
@@ -616,9 +656,10 @@ func TestC14(t *testing.T) {
 	}
 	run.Assumptions = append(run.Assumptions,
 		"universe: heights 100..106, one watched tx T (txid+script / script-only), one outpoint O with two conflicting spenders (pair spaces: plus an unrelated second watched tx U and second outpoint O' with one spender, nothing shared with T/O but the heights); numConfs 1..3; reorg safety limit 3 or 4; no block buried by the limit below the highest tip seen is disconnected",
-		"clients read their channels promptly (drained after every notifier call); client height hints are valid promises (the event is not on the active chain below the hint at registration time)",
+		"clients read their channels promptly (drained after every notifier call) except in the lazy-* spaces, where a client reads only at explicit rd steps and the clauses are evaluated on what it holds or would read now; client height hints are valid promises (the event is not on the active chain below the hint at registration time)",
 		"while the notifier is down the chain only grows, and after a start no block is disconnected until every request with a persisted hint has registered again (a notifier cannot lower the hint of a request it does not know; lnd documents the limitation at channeldb.CacheConfig.QueryDisable)",
 		"the per-space restart budget bounds the search only: the terminal suffix probes stop the notifier in any state (a node can go down at any time)",
+		"the backend's relevant-transaction feed (relevant-* spaces) is truthful: a reported spender is on the active chain at the reported height, or is in the block connected next",
 		"historical rescans are computed on the active chain at delivery time (fresh); the stale-scan variant is explored in the thorough tier under a candidate label only",
 		"TxNotifier methods are atomic under its mutex except the hint-cache read of Register*, which is explored explicitly (window spaces); data races are outside this check",
 		"canonical key drops client ids (uint64), closures and the mutex of the notifier; everything else it stores is in the key")
